@@ -157,17 +157,17 @@ Qed.
 
 Lemma frame_do_cmd : forall s k, frame s (fst (do_cmd s k)).
 Proof.
-  intros. destruct k; simpl.
-  - constructor; simpl; auto. apply lrel_app_new. exists []; auto.
-  - destruct (negb (c <? length (conns s))); simpl; [apply frame_refl|].
-    destruct (negb (c_entry (getc s c))); simpl; [apply frame_refl|]. apply frame_close_connection.
-  - destruct (negb (c <? length (conns s))); simpl; [apply frame_refl|].
-    destruct (negb (c_entry (getc s c))); simpl; [apply frame_refl|]. apply frame_close_connection.
-  - destruct (negb (c <? length (conns s))); simpl; [apply frame_refl|].
-    destruct (negb (c_entry (getc s c))); simpl; [apply frame_refl|].
-    destruct (c_writer (getc s c)); simpl; try apply frame_refl. apply frame_emit; auto.
-  - constructor; simpl; auto using lrel_refl. exists []; auto.
-  - apply frame_refl.
+  intros. destruct k; unfold do_cmd.
+  - cbn [fst]. constructor; simpl; auto. apply lrel_app_new. exists []; auto.
+  - destruct (negb (c <? length (conns s))); cbn [fst]; [apply frame_refl|].
+    destruct (negb (c_entry (getc s c))); cbn [fst]; [apply frame_refl|]. apply frame_close_connection.
+  - destruct (negb (c <? length (conns s))); cbn [fst]; [apply frame_refl|].
+    destruct (negb (c_entry (getc s c))); cbn [fst]; [apply frame_refl|]. apply frame_close_connection.
+  - destruct (negb (c <? length (conns s))); cbn [fst]; [apply frame_refl|].
+    destruct (negb (c_entry (getc s c))); cbn [fst]; [apply frame_refl|].
+    destruct (c_writer (getc s c)); cbn [fst]; try apply frame_refl. apply frame_emit; auto.
+  - cbn [fst]. constructor; simpl; auto using lrel_refl. exists []; auto.
+  - cbn [fst]. apply frame_refl.
 Qed.
 
 Lemma frame_do_cmds : forall ks s, frame s (do_cmds s ks).
